@@ -65,6 +65,10 @@ func TestVerifV2Conc(t *testing.T) {
 	// a second shared classifier with tracing configured (wildcard license patterns, a phase that never fires)
 	ct := vt.build("c09trace", 0.8, docs)
 	ct.c.SetTraceConfiguration(&TraceConfiguration{TraceLicenses: "License/A*,Header/*,License/BSD*", TracePhases: "nonesuch", Tracer: func(string, ...interface{}) {}})
+	// a third one whose tracing was switched off explicitly: SetTraceConfiguration(nil) is supported (every method of
+	// *TraceConfiguration accepts a nil receiver), and a call must not repair the nil behind the caller's back
+	cn := vt.build("c09nil", 0.8, docs)
+	cn.c.SetTraceConfiguration(nil)
 	// which arrays are corpus storage
 	corpus := map[uintptr]string{}
 	for k, d := range c.c.docs {
@@ -101,7 +105,7 @@ func TestVerifV2Conc(t *testing.T) {
 		mu.Unlock()
 		_ = doc
 	}
-	for _, cc := range []*v2C{c, ct} {
+	for _, cc := range []*v2C{c, ct, cn} {
 		cc.c.Normalize([]byte(novel + " and some more unheardofwordage"))
 	}
 	var emu sync.Mutex
@@ -117,10 +121,7 @@ func TestVerifV2Conc(t *testing.T) {
 					if (g+k)%3 == 0 {
 						api = "MatchFrom"
 					}
-					cc := c
-					if (g+r)%2 == 1 {
-						cc = ct
-					}
+					cc := []*v2C{c, ct, cn}[(g+r)%3]
 					// every fourth call is preceded by a stream that fails (after 0, 1, 700 or 3000 bytes): an abandoned
 					// call must leave nothing behind that a concurrent or later call could pick up
 					if (g+k+r)%4 == 0 {
@@ -150,6 +151,7 @@ func TestVerifV2Conc(t *testing.T) {
 	v2AloneVsConcurrent(vt)
 	v2ColdDictionaryWords(vt)
 	v2AdjacentInputs(vt)
+	v2ColdStart(vt)
 	if why := v2Spoiled.Load(); why != nil {
 		vt.emit(map[string]interface{}{"ev": "argfault", "why": why})
 	}
@@ -324,4 +326,78 @@ func v2AdjacentInputs(vt *v2T) {
 		}
 	}
 	vt.reset(false)
+}
+
+// ---------------------------------------------------------------------------------------------
+// Cold start: the very first lines tokenized in a PROCESS come from concurrent calls on a shared classifier with an empty
+// corpus (nothing was added, so nothing warmed up whatever the package builds on first use).  The helper test runs in a process
+// of its own (this test binary again -- a -race build when the check runs the driver under the race detector) and prints what
+// each call returned; every call must report the notices of its input, and the race detector nothing.
+func v2ColdInputs() [][]byte {
+	return [][]byte{
+		[]byte("Copyright 2019 A B\nsome words here\n2019-jan-05\nCopyright (c) 2020 C\n"),
+		[]byte("2020-01-02\nother words there\nCopyright 2018 D\n2017-dec-31\n"),
+		[]byte("// Copyright 2021 E\nplain text\nCopyright (c) [dates of first publication] F\n"),
+	}
+}
+
+func TestVerifV2Cold(t *testing.T) {
+	if os.Getenv("VERIF_COLD") == "" {
+		t.Skip("helper of TestVerifV2Conc")
+	}
+	c := NewClassifier(0.8)
+	ins := v2ColdInputs()
+	const n = 12
+	got := make([]string, n)
+	var wg sync.WaitGroup
+	start := make(chan struct{})
+	for g := 0; g < n; g++ {
+		wg.Add(1)
+		go func(g int) {
+			defer wg.Done()
+			<-start
+			got[g] = v2AloneShow(c.Match(ins[g%len(ins)]))
+		}(g)
+	}
+	close(start)
+	wg.Wait()
+	for g := 0; g < n; g++ {
+		fmt.Printf("COLD:%d:%s\n", g%len(ins), got[g])
+	}
+}
+
+func v2ColdStart(vt *v2T) {
+	ins := v2ColdInputs()
+	ref := NewClassifier(0.8)
+	var want []string
+	for _, in := range ins {
+		want = append(want, v2AloneShow(ref.Match(in)))
+	}
+	for rep := 0; rep < 4; rep++ {
+		cmd := exec.Command(os.Args[0], "-test.run=^TestVerifV2Cold$", "-test.count=1")
+		cmd.Env = append(os.Environ(), "VERIF_COLD=1", "VERIF_OUT=")
+		b, err := cmd.CombinedOutput()
+		outp := string(b)
+		if strings.Contains(outp, "WARNING: DATA RACE") {
+			i := strings.Index(outp, "WARNING: DATA RACE")
+			vt.emit(map[string]interface{}{"ev": "fault", "why": "cold start: the race detector reports concurrent first calls on an empty classifier: " + outp[i:vuMin(len(outp), i+1500)]})
+			return
+		}
+		seen := 0
+		for _, ln := range strings.Split(outp, "\n") {
+			if strings.HasPrefix(ln, "COLD:") {
+				parts := strings.SplitN(ln, ":", 3)
+				k := int(parts[1][0] - '0')
+				seen++
+				if parts[2] != want[k] {
+					vt.emit(map[string]interface{}{"ev": "fault", "why": fmt.Sprintf("cold start: one of 12 concurrent first calls returned %s for input %d, alone it returns %s", parts[2], k, want[k])})
+					return
+				}
+			}
+		}
+		if seen == 0 {
+			vt.emit(map[string]interface{}{"ev": "skip", "why": fmt.Sprintf("cold-start helper gave no result: %v %s", err, outp[:vuMin(len(outp), 300)])})
+			return
+		}
+	}
 }
